@@ -1516,6 +1516,34 @@ def emit(repo):
     out.append("Definition src_procs : list (string * procdef) := [")
     out.append(";\n".join('  (%s, mkProc [%s]\n    [%s])' % (q(n), "; ".join(q(x) for x in ps), ";\n     ".join(fix_path_vars(x) for x in ss)) for n, ps, ss in procs))
     out.append("].")
+    # the unsafe auto-trait impls of the crate: exactly these, with exactly these bounds
+    expected_auto = [
+        ("src/lib.rs", "unsafeimplSyncforEmptyChunkFooter{}"),
+        ("src/lib.rs", "unsafeimpl<constMIN_ALIGN:usize>SendforBump<MIN_ALIGN>{}"),
+        ("src/collections/vec.rs", "unsafeimpl<'bump,T:Send>SendforIntoIter<'bump,T>{}"),
+        ("src/collections/vec.rs", "unsafeimpl<'bump,T:Sync>SyncforIntoIter<'bump,T>{}"),
+        ("src/collections/vec.rs", "unsafeimpl<'a,'bump,T:Sync>SyncforDrain<'a,'bump,T>{}"),
+        ("src/collections/vec.rs", "unsafeimpl<'a,'bump,T:Send>SendforDrain<'a,'bump,T>{}"),
+        ("src/collections/string.rs", "unsafeimpl<'a,'bump>SyncforDrain<'a,'bump>{}"),
+        ("src/collections/string.rs", "unsafeimpl<'a,'bump>SendforDrain<'a,'bump>{}"),
+    ]
+    auto = []
+    total = 0
+    for root, _, files in os.walk(os.path.join(repo, "src")):
+        for fn in files:
+            if fn.endswith(".rs"):
+                txt = strip_comments(open(os.path.join(root, fn)).read())
+                total += len(re.findall(r"unsafe\s+impl\b[^{;]*\b(?:Send|Sync)\s+for\b", txt))
+    for i, (path, text) in enumerate(expected_auto):
+        try:
+            flat = re.sub(r"\s+", "", strip_comments(open(os.path.join(repo, path)).read()))
+            auto.append(("auto_trait_impl_%d" % i, text in flat))
+        except OSError:
+            auto.append(("auto_trait_impl_%d" % i, False))
+    auto.append(("no_other_unsafe_auto_trait_impl", total == len(expected_auto)))
+    out.append("Definition src_auto_trait_impls : list (string * bool) := [")
+    out.append(";\n".join("  (%s, %s)" % (q(l), "true" if ok else "false") for l, ok in auto))
+    out.append("].")
     out.append("Definition src_consts : list (string * expr) := [")
     out.append(";\n".join("  (%s, %s)" % (q(n), t) for n, t in consts))
     out.append("].")
